@@ -105,7 +105,17 @@ def h_reduce_shapes(ctx, tier, seed):
     """reducer on IR shapes a client can send: an asset whose amount is not a number, an
     IntoScript coercion, indexing with extreme integers"""
     eng = ctx.eng; T = TIR(eng)
-    which = eng.choose(4, "IR shape")
+    which = eng.choose(6, "IR shape")
+    if which >= 4:
+        # a coercion of an input bound to 0, 1 or 2 UTxOs (an empty set is a value a client can send)
+        n = eng.choose(3, "UTxOs bound to the input")
+        us = [T.st("Utxo", ref=utxo_ref(T, [0x30 + i] * 32, i), address=VecM([0x60] + [1] * 28),
+                   assets=Agg("CanonicalAssets", None, 0, [MapM("HashMap", [[cls_naked(), True, 5000000]])]), datum=some(T.num(9)) if i == 0 else none(), script=none()) for i in range(n)]
+        c = T.v("Coerce", "IntoDatum" if which == 4 else "IntoAssets", T.v("Expression", "UtxoSet", MapM("HashSet", [[u, True, unit()] for u in us])))
+        f = eng.find(trait="Composite", self_ty="Coerce", method="reduce_self")
+        no_panic(ctx, "reducing %s of an input bound to %d UTxO(s)" % ("IntoDatum" if which == 4 else "IntoAssets", n), lambda: eng.call_fn(f, [c]))
+        ctx.require(True, "the coercion returns")
+        return
     if which == 0:
         a = T.assets([T.asset(T.none(), T.none(), T.string("ten"))])
         b = T.assets([T.asset(T.none(), T.none(), T.num(1))])
@@ -139,7 +149,7 @@ HARNESSES = [
     _h("c14m_min_utxo_index", h_min_utxo, "index: whole i128 range; previous body absent or with 0..3 outputs; coins_per_byte: whole u64 range"),
     _h("c14m_adhoc_script", h_adhoc_script, "script/version presence symbolic; version: whole i128 range; script as bytes / string / number"),
     _h("c14m_cost_models", h_cost_models, "every subset of cost models {0,1,2}; redeemers present/absent; plutus script set none/v1/v2/v3"),
-    _h("c14m_reduce_shapes", h_reduce_shapes, "4 IR shapes; scalars: whole i128 range"),
+    _h("c14m_reduce_shapes", h_reduce_shapes, "6 IR shapes (incl. IntoDatum / IntoAssets of an input bound to 0..2 UTxOs); scalars: whole i128 range"),
 ]
 
 
